@@ -1,6 +1,7 @@
 package main
 
 import (
+	"os"
 	"fmt"
 	"go/constant"
 	"go/token"
@@ -24,6 +25,7 @@ func (t *Trans) execCall(fr *Frame, c *ssa.CallCommon, v ssa.Value, pos token.Po
 	}
 	switch callee := c.Value.(type) {
 	case *ssa.Builtin:
+		t.curCallValue = v
 		return t.execBuiltin(fr, callee, c, args, pos)
 	case *ssa.Function:
 		return t.callStatic(fr, callee, c.Args, args, nil, pos)
@@ -780,12 +782,35 @@ func (t *Trans) execBuiltin(fr *Frame, b *ssa.Builtin, c *ssa.CallCommon, args [
 		r := t.newObject(fr, fr.id+"!appb")
 		cp := t.freshConst(sortBV64, "appcap")
 		t.assume("true", fmt.Sprintf("(and (bvule %s %s) (bvult %s LENMAX))", nl, cp, cp))
-		res := t.define("Slice", "app", fmt.Sprintf("(mk-slice %s %s %s %s)", r, zero64, nl, cp))
+		if lin, why := appendLinear(c, t.curCallValue); lin && os.Getenv("GOVC_APPEND_INPLACE") != "1" {
+			// the `v = append(v, ...)` idiom on a value nobody else appends to or reslices: the cells behind the
+			// length are visible through no other header in use (assumption A18 for what the syntactic check
+			// cannot see), so writing them in place and copying are indistinguishable; modelled as copying
+			t.note("%s: append at %s modelled as copying (%s)", fr.path, t.P.prog.Fset.Position(pos), why)
+			res := t.define("Slice", "app", fmt.Sprintf("(mk-slice %s %s %s %s)", r, zero64, nl, cp))
+			for _, comp := range t.leafComps(elem) {
+				n := t.freshConst(env.comps[comp], comp+"@app")
+				old := fr.st.get(comp)
+				t.assume("true", fmt.Sprintf("(forall ((p!a Ref)) (! (= (select %s p!a) (ite (and (isidx p!a) (= (ibase p!a) %s)) (ite (bvult (iidx p!a) %s) (select %s (selemaddr %s (iidx p!a))) (select %s (selemaddr %s (bvsub (iidx p!a) %s)))) (select %s p!a))) :pattern ((select %s p!a))))",
+					n, r, l1, old, s1, old, s2, l1, old, n))
+				fr.st = fr.st.set(comp, n)
+			}
+			return []string{res}
+		}
+		// Go's append: when the capacity of the first argument suffices the new elements are written IN PLACE behind
+		// its length (visible through every slice sharing the array); otherwise the result is a fresh array holding
+		// the old and the new elements.
+		t.note("%s: append at %s modelled in place (not the v = append(v, ...) idiom)", fr.path, t.P.prog.Fset.Position(pos))
+		reuse := t.define("Bool", "appreuse", fmt.Sprintf("(bvule %s (slcap %s))", nl, s1))
+		res := t.define("Slice", "app", fmt.Sprintf("(ite %s (mk-slice (sbase %s) (soff %s) %s (slcap %s)) (mk-slice %s %s %s %s))", reuse, s1, s1, nl, s1, r, zero64, nl, cp))
 		for _, comp := range t.leafComps(elem) {
 			n := t.freshConst(env.comps[comp], comp+"@app")
 			old := fr.st.get(comp)
-			t.assume("true", fmt.Sprintf("(forall ((p!a Ref)) (! (= (select %s p!a) (ite (and (isidx p!a) (= (ibase p!a) %s)) (ite (bvult (iidx p!a) %s) (select %s (selemaddr %s (iidx p!a))) (select %s (selemaddr %s (bvsub (iidx p!a) %s)))) (select %s p!a))) :pattern ((select %s p!a))))",
-				n, r, l1, old, s1, old, s2, l1, old, n))
+			inplace := fmt.Sprintf("(ite (and (isidx p!a) (= (ibase p!a) (sbase %s)) (bvule (bvadd (soff %s) %s) (iidx p!a)) (bvult (iidx p!a) (bvadd (soff %s) %s))) (select %s (selemaddr %s (bvsub (iidx p!a) (bvadd (soff %s) %s)))) (select %s p!a))",
+				s1, s1, l1, s1, nl, old, s2, s1, l1, old)
+			fresh := fmt.Sprintf("(ite (and (isidx p!a) (= (ibase p!a) %s)) (ite (bvult (iidx p!a) %s) (select %s (selemaddr %s (iidx p!a))) (select %s (selemaddr %s (bvsub (iidx p!a) %s)))) (select %s p!a))",
+				r, l1, old, s1, old, s2, l1, old)
+			t.assume("true", fmt.Sprintf("(forall ((p!a Ref)) (! (= (select %s p!a) (ite %s %s %s)) :pattern ((select %s p!a))))", n, reuse, inplace, fresh, n))
 			fr.st = fr.st.set(comp, n)
 		}
 		return []string{res}
@@ -938,4 +963,93 @@ func (t *Trans) takeSnapshots(fr *Frame, callee string) {
 		t.assume(fr.curReach, sc.expandBool(aa.List[2]))
 		t.trustedUsed[t.topC.Key+"#"+aa.List[1].Atom+" (assumed after "+aa.List[0].Atom+")"] = true
 	}
+}
+
+// appendLinear: syntactic check that an append call is the linear idiom `v = append(v, ...)`:
+// the first argument is fresh (nil, make, another append's result), a register variable (phi of such values), or a
+// load from a cell the result is stored back to; and the first argument is neither appended to elsewhere nor
+// resliced. Then no header in use afterwards exposes the cells behind its length.
+func appendLinear(c *ssa.CallCommon, call ssa.Value) (bool, string) {
+	if call == nil || len(c.Args) == 0 {
+		return false, ""
+	}
+	x := c.Args[0]
+	isAppend := func(v ssa.Value) bool {
+		cl, ok := v.(*ssa.Call)
+		if !ok {
+			return false
+		}
+		b, ok := cl.Call.Value.(*ssa.Builtin)
+		return ok && b.Name() == "append"
+	}
+	var fresh func(v ssa.Value, depth int) bool
+	fresh = func(v ssa.Value, depth int) bool {
+		if depth > 6 {
+			return false
+		}
+		switch y := v.(type) {
+		case *ssa.Const:
+			return y.Value == nil
+		case *ssa.MakeSlice:
+			return true
+		case *ssa.Call:
+			return isAppend(y)
+		case *ssa.Slice:
+			_, isAlloc := y.X.(*ssa.Alloc) // variadic argument array
+			return isAlloc
+		case *ssa.Phi:
+			for _, e := range y.Edges {
+				if e != v && !fresh(e, depth+1) {
+					return false
+				}
+			}
+			return true
+		}
+		return false
+	}
+	sameCell := func(a, b ssa.Value) bool {
+		if a == b {
+			return true
+		}
+		fa, ok1 := a.(*ssa.FieldAddr)
+		fb, ok2 := b.(*ssa.FieldAddr)
+		return ok1 && ok2 && fa.X == fb.X && fa.Field == fb.Field
+	}
+	why := ""
+	switch y := x.(type) {
+	case *ssa.UnOp:
+		if y.Op != token.MUL {
+			return false, ""
+		}
+		stored := false
+		if refs := call.Referrers(); refs != nil {
+			for _, r := range *refs {
+				if st, ok := r.(*ssa.Store); ok && st.Val == call && sameCell(st.Addr, y.X) {
+					stored = true
+				}
+			}
+		}
+		if !stored {
+			return false, ""
+		}
+		why = "result stored back to the cell the argument was loaded from"
+	default:
+		if !fresh(x, 0) {
+			return false, ""
+		}
+		why = "argument is nil, a make, an append result or a local variable holding such values"
+	}
+	if refs := x.Referrers(); refs != nil {
+		for _, r := range *refs {
+			switch z := r.(type) {
+			case *ssa.Call:
+				if z != call && isAppend(z) && z.Call.Args[0] == x {
+					return false, ""
+				}
+			case *ssa.Slice:
+				return false, ""
+			}
+		}
+	}
+	return true, why
 }
